@@ -242,11 +242,13 @@ def _ref_to_jose(rng, index, ev, alg, form, res, tr):
                 p[name] = ex[name]
         specs.append((p, u or None, a, k))
         keys.append(k)
-    if form == "c7797":
-        # compact attached form cannot carry '.' - the peer detaches exactly when needed
-        pass
+    detach = None
+    if form == "c7797" and payload and b"." not in payload and all(0x20 <= c <= 0x7e for c in payload) and rng.chance(0.5):
+        # RFC 7797 5.2: an attached unencoded payload may hold any printable ASCII but '.'; URL-safe characters are a
+        # recommendation to producers, not something a receiver may insist on ("$02", "hello world", "a+b/c=")
+        detach = False
     try:
-        m = W.mint_ref(form, specs, payload, rng.sub("spell"))
+        m = W.mint_ref(form, specs, payload, rng.sub("spell"), detach=detach)
     except UnicodeDecodeError:
         res.probe("peer-skipped-nonutf8-b64false")
         return
